@@ -27,7 +27,7 @@ type c13TailTick struct {
 	Returned []int64 `json:"returned_timestamps"`
 }
 
-func c13RunTail(query string, ticks int, plan func(k int, from, to int64) []int64) (start time.Time, out []c13TailTick, err error) {
+func c13RunTail(query string, ticks int, cluster bool, plan func(k int, from, to int64) []int64) (start time.Time, out []c13TailTick, err error) {
 	c20Setup()
 	var mtx sync.Mutex
 	reg := fakes.NewDBRegistry(&fakes.CallLog{}, func(s string) ([]string, [][]driver.Value, error) {
@@ -58,6 +58,9 @@ func c13RunTail(query string, ticks int, plan func(k int, from, to int64) []int6
 	c13tSeq++
 	reg.M.Session = &c13tNamed{DB: reg.M.Session.(*fakes.DB), name: fmt.Sprintf("c13tail-%d", c13tSeq)}
 	c13tMtx.Unlock()
+	if cluster {
+		reg.M.Config.ClusterName = "c1"
+	}
 	svc := rservice.NewQueryRangeService(&rmodel.ServiceData{Session: reg})
 	start = time.Now()
 	w, err := svc.Tail(context.Background(), query)
@@ -92,13 +95,14 @@ loop:
 }
 
 func c13ModelTail(r *h.Result, rng *h.Rng, tails, ticks int) error {
-	r.Stream("model-tail: QueryRangeService.Tail over the scripted database, several ticks: each tick's statement vs LogQL.planLog for the window [from, now) the statement names, Limit 0, descending, Type 0 (byte-equal); the `from` of every tick vs Tail.froms over the entry timestamps returned (newer, equal to and older than `from`, in result order); the first `from` = start − 5 min")
+	r.Stream("model-tail: QueryRangeService.Tail over the scripted database, several ticks, single-node and CLUSTERED (inline-WITH rendering, Sql.renderSelInline): each tick's statement vs LogQL.planLog for the window [from, now) the statement names, Limit 0, descending, Type 0 (byte-equal); the `from` of every tick vs Tail.froms over the entry timestamps returned (newer, equal to and older than `from`, in result order); the first `from` = start − 5 min")
 	queries := []string{`{a="b"}`, `{a="b"} |= "x"`, `{job=~"a.*", env!="x"} != "y"`, `{a="b"} |~ "e.+r"`, `{a="b", c="d"}`}
 	type res struct {
 		query string
 		start time.Time
-		ticks []c13TailTick
-		err   error
+		ticks   []c13TailTick
+		err     error
+		cluster bool
 	}
 	out := make([]res, tails)
 	var wg sync.WaitGroup
@@ -108,7 +112,8 @@ func c13ModelTail(r *h.Result, rng *h.Rng, tails, ticks int) error {
 		wg.Add(1)
 		go func(i int, sub *h.Rng) {
 			defer wg.Done()
-			start, ts, err := c13RunTail(q, ticks, func(k int, from, to int64) []int64 {
+			cluster := i%2 == 1
+			start, ts, err := c13RunTail(q, ticks, cluster, func(k int, from, to int64) []int64 {
 				switch sub.Intn(5) {
 				case 0:
 					return nil
@@ -122,7 +127,7 @@ func c13ModelTail(r *h.Result, rng *h.Rng, tails, ticks int) error {
 					return []int64{to - 1 - int64(sub.Intn(1000))}
 				}
 			})
-			out[i] = res{q, start, ts, err}
+			out[i] = res{q, start, ts, err, cluster}
 		}(i, sub)
 	}
 	wg.Wait()
@@ -143,10 +148,21 @@ func c13ModelTail(r *h.Result, rng *h.Rng, tails, ticks int) error {
 		}
 		var obs, results []string
 		for k, t := range o.ticks {
-			c := qctx{From: t.From, To: t.To, Limit: 0, Asc: false, Type: 0, Cluster: false}
-			ops = append(ops, "c07plan "+c.ser()+" "+ser)
+			c := qctx{From: t.From, To: t.To, Limit: 0, Asc: false, Type: 0, Cluster: o.cluster}
+			if o.cluster {
+				// the cluster layout: tables of PopulateTableNames for the connection ("qryn", cluster "c1"), the statement
+				// rendered with STRING_OPT_INLINE_WITH (no WITH clause, every reference written in place)
+				ops = append(ops, fmt.Sprintf("c13planinline %d %d 0 0 0 1 %s %s %s %s %s", t.From, t.To, hx("`qryn`.time_series_gin"), hx("`qryn`.samples_v3_dist"),
+					hx("`qryn`.time_series"), hx("`qryn`.time_series_dist"), ser))
+			} else {
+				ops = append(ops, "c07plan "+c.ser()+" "+ser)
+			}
 			impl = append(impl, h.Hex([]byte(t.SQL)))
-			cases = append(cases, map[string]any{"stream": "model-tail", "query": o.query, "tick": k, "from": t.From, "to": t.To, "sql": t.SQL})
+			cs := map[string]any{"stream": "model-tail", "query": o.query, "tick": k, "from": t.From, "to": t.To, "cluster": o.cluster, "sql": t.SQL}
+			cases = append(cases, cs)
+			r.Count(fmt.Sprintf("model-tail:cluster=%v", o.cluster))
+			// signal half, on the statement the real tail sends with the context its literal builds: logs only
+			c13SignalText(r, "tail", t.SQL, 1, cs)
 			r.Case(fmt.Sprintf("model-tail:%s:%d:%v", o.query, k, t.Returned), len(t.Returned) > 0)
 			obs = append(obs, strconv.FormatInt(t.From, 10))
 			if k < len(o.ticks)-1 {
